@@ -53,6 +53,7 @@ def run(ck):
             break
     ck.cov["op_histogram"] = stats.ops
     ck.cov["histories_with"] = stats.kinds
+    ck.cov["outcome_distribution"] = dict(sorted(stats.outcomes.items()))
     ck.cov["probes"] = stats.ops.get("probe", 0)
     ck.cov["partial"] = PARTIAL
 
